@@ -10,6 +10,8 @@ import (
 	"sort"
 	"strings"
 	"unicode"
+
+	jmespath "github.com/jmespath/go-jmespath"
 )
 
 func init() { families["C18"] = famC18 }
@@ -168,9 +170,13 @@ func (g *Gen) ptrSliceDoc() (interface{}, interface{}) {
 		Strs []string  `json:"strs"`
 		Nums []float64 `json:"nums"`
 		L    []T       `json:"l"`
+		Es   []string  `json:"es"`
+		El   []T       `json:"el"`
+		Ep   []*T      `json:"ep"`
 	}
 	mk := func(i int) *T { return &T{Foo: float64(i), Bar: strPool[g.rng.Intn(len(strPool))]} }
-	d := D{P: mk(1), Strs: []string{"a", "b", "a"}, Nums: []float64{3, 1, 2}, L: []T{*mk(5), *mk(4)}}
+	d := D{P: mk(1), Strs: []string{"a", "b", "a"}, Nums: []float64{3, 1, 2}, L: []T{*mk(5), *mk(4)},
+		Es: []string{}, El: []T{}, Ep: []*T{}}
 	d.P.Sub = mk(7)
 	for i := 0; i < 2+g.rng.Intn(3); i++ {
 		if g.rng.Intn(3) == 0 {
@@ -230,6 +236,13 @@ func famC18(r *Run) {
 		og := observeSearch(text, generic)
 		od := observeSearch(text, doc)
 		r.count("go:" + od.Kind)
+		if hasComparator(text) && od.Kind != "panic" {
+			// the property claims equivalence for navigation, boolean operators, pipes and
+			// length(), not for comparators: == on a typed slice and a generic one is false
+			// by Go type identity.  Such expressions only count for "no panic".
+			r.count("go:comparator-not-compared")
+			continue
+		}
 		if od.Kind == "panic" {
 			r.violate("G-go-nav", text, generic, "panic on a document of Go structs / typed slices", od.Msg+describeGo(doc))
 		} else if od.Kind == "val" && og.Kind == "val" {
@@ -242,6 +255,7 @@ func famC18(r *Run) {
 			r.violate("G-go-nav", text, generic, "outcome on Go structs differs from the outcome on the equivalent generic document", od.String()+" vs "+og.String()+describeGo(doc))
 		}
 		r.addSearch("G-go-nav", text, generic, "exact")
+		r.addGo("G-go-model", text, doc, od)
 		// any expression, all functions: no panic
 		t2 := gf.expr(0, 4, hAny, generic)
 		if r.rng.Intn(2) == 0 {
@@ -254,9 +268,39 @@ func famC18(r *Run) {
 			r.violate("G-go-fun", text2, generic, "panic on a document of Go structs / typed slices", o2.Msg+describeGo(doc))
 		}
 	}
+	// a nil pointer as the document itself behaves like the null document
+	{
+		type N struct {
+			Foo float64 `json:"foo"`
+			Sub *N      `json:"sub"`
+			L   []*N    `json:"l"`
+		}
+		var np *N
+		shapeDoc := map[string]interface{}{"foo": 1.0, "sub": map[string]interface{}{"foo": 2.0}, "l": []interface{}{}}
+		for i := 0; i < r.n(200, 3000); i++ {
+			t := g.expr(0, 3, hAny, shapeDoc)
+			text := t.text(textOpts{})
+			r.mark("G-go-nilroot", text, nil)
+			og := observeSearch(text, nil)
+			od := observeSearch(text, np)
+			if od.Kind == "panic" {
+				r.violate("G-go-nilroot", text, nil, "panic on a nil pointer document", od.Msg)
+			} else if od.Kind == "val" && og.Kind == "val" {
+				nd, err := normalise(od.Value)
+				if err != nil || !jsonEqual(nd, og.Value) {
+					b, _ := json.Marshal(nd)
+					r.violate("G-go-nilroot", text, nil, "result on a nil pointer document differs from the result on null", "nil pointer: "+string(b)+" null: "+og.String())
+				}
+			} else if od.Kind != og.Kind {
+				r.violate("G-go-nilroot", text, nil, "outcome on a nil pointer document differs from the outcome on null", od.String()+" vs "+og.String())
+			}
+			r.addSearch("G-go-nilroot", text, nil, "exact")
+			r.addGo("G-go-model-nilroot", text, np, od)
+		}
+	}
 	// every function applied to each kind of typed slice / struct / pointer
 	doc, generic := g.ptrSliceDoc()
-	fields := []string{"strs", "nums", "l", "lp", "p", "q", "p.sub", "lp[0]", "l[0]"}
+	fields := []string{"strs", "nums", "l", "lp", "p", "q", "p.sub", "lp[0]", "l[0]", "es", "el", "ep", "l[5:]", "strs[9:]"}
 	for _, s := range fsigs {
 		for _, f := range fields {
 			for _, e := range []string{
@@ -272,6 +316,179 @@ func famC18(r *Run) {
 			}
 		}
 	}
+}
+
+// goModelable: the expression stays inside the fragment Model/GoVal.v covers
+// (no comparator, no object wildcard, no function but length, ASCII lower-case
+// identifiers) — other expressions are compared on the Go side only.
+func goModelable(expr string) bool {
+	toks, err := jmespath.VerifTokens(expr)
+	if err != nil {
+		return false
+	}
+	for i, t := range toks {
+		switch t.TypeName {
+		case "tLT", "tLTE", "tGT", "tGTE", "tEQ", "tNE", "tExpref":
+			return false
+		case "tStar":
+			prevL := i > 0 && toks[i-1].TypeName == "tLbracket"
+			nextR := i+1 < len(toks) && toks[i+1].TypeName == "tRbracket"
+			if !(prevL && nextR) {
+				return false
+			}
+		case "tLparen":
+			if i > 0 && toks[i-1].TypeName == "tUnquotedIdentifier" && toks[i-1].Value != "length" {
+				return false
+			}
+		case "tUnquotedIdentifier", "tQuotedIdentifier":
+			v := t.Value
+			if v == "" || v[0] < 'a' || v[0] > 'z' {
+				if !(i+1 < len(toks) && toks[i+1].TypeName == "tLparen") {
+					return false
+				}
+			}
+		}
+	}
+	return true
+}
+
+// coqGoVal renders a Go value made of structs, pointers to structs, typed
+// slices, generic slices/maps and scalars as a gval term; ok=false for
+// anything else.
+func coqGoVal(v reflect.Value) (string, bool) {
+	if !v.IsValid() {
+		return "gN", true
+	}
+	switch v.Kind() {
+	case reflect.Interface:
+		if v.IsNil() {
+			return "gN", true
+		}
+		return coqGoVal(v.Elem())
+	case reflect.Bool:
+		return "(gB " + coqBool(v.Bool()) + ")", true
+	case reflect.Float64:
+		f := coqFloat(v.Float())
+		if !strings.HasPrefix(f, "(F ") {
+			return "", false
+		}
+		return "(gF " + f[3:], true
+	case reflect.String:
+		return "(gS " + coqBytes(v.String()) + ")", true
+	case reflect.Ptr:
+		if v.IsNil() {
+			return "(gP None)", true
+		}
+		if v.Elem().Kind() != reflect.Struct {
+			return "", false
+		}
+		fs, ok := coqGoFields(v.Elem())
+		if !ok {
+			return "", false
+		}
+		return "(gP (Some " + fs + "))", true
+	case reflect.Struct:
+		fs, ok := coqGoFields(v)
+		if !ok {
+			return "", false
+		}
+		return "(gT " + fs + ")", true
+	case reflect.Slice:
+		if v.IsNil() {
+			return "", false
+		}
+		parts := make([]string, 0, v.Len())
+		for i := 0; i < v.Len(); i++ {
+			s, ok := coqGoVal(v.Index(i))
+			if !ok {
+				return "", false
+			}
+			parts = append(parts, s)
+		}
+		c := "gL"
+		if v.Type().Elem().Kind() == reflect.Interface {
+			c = "gA"
+		}
+		return "(" + c + " [" + strings.Join(parts, "; ") + "])", true
+	case reflect.Map:
+		if v.IsNil() || v.Type().Key().Kind() != reflect.String {
+			return "", false
+		}
+		keys := make([]string, 0, v.Len())
+		for _, k := range v.MapKeys() {
+			keys = append(keys, k.String())
+		}
+		sort.Strings(keys)
+		parts := make([]string, 0, len(keys))
+		for _, k := range keys {
+			s, ok := coqGoVal(v.MapIndex(reflect.ValueOf(k)))
+			if !ok {
+				return "", false
+			}
+			parts = append(parts, "gkv "+coqBytes(k)+" "+s)
+		}
+		return "(gO [" + strings.Join(parts, "; ") + "])", true
+	}
+	return "", false
+}
+
+// fields in declaration order, each with the JSON key of its tag; the Go name
+// must be that key with its first letter upper-cased (what the model assumes)
+func coqGoFields(v reflect.Value) (string, bool) {
+	t := v.Type()
+	parts := make([]string, 0, t.NumField())
+	for i := 0; i < t.NumField(); i++ {
+		f := t.Field(i)
+		key := f.Tag.Get("json")
+		if key == "" || f.PkgPath != "" || capitalize(key) != f.Name {
+			return "", false
+		}
+		s, ok := coqGoVal(v.Field(i))
+		if !ok {
+			return "", false
+		}
+		parts = append(parts, "gkv "+coqBytes(key)+" "+s)
+	}
+	return "[" + strings.Join(parts, "; ") + "]", true
+}
+
+// addGo records Search(expr, goDoc) for the model of the reflection paths.
+func (r *Run) addGo(family, expr string, doc interface{}, od Obs) {
+	if !goModelable(expr) {
+		r.count("go-model:skipped-fragment")
+		return
+	}
+	term, ok := coqGoVal(reflect.ValueOf(doc))
+	if !ok {
+		r.count("go-model:skipped-value")
+		return
+	}
+	o := od
+	if od.Kind == "val" {
+		nd, err := normalise(od.Value)
+		if err != nil {
+			r.count("go-model:skipped-result")
+			return
+		}
+		o = Obs{Kind: "val", Value: nd}
+	}
+	c := Case{ID: len(r.cases), Family: family, Kind: "go", Expr: expr, GoDoc: term, Go: o.String(), goObs: o}
+	r.cases = append(r.cases, c)
+	r.count("go-model:cases")
+}
+
+func hasComparator(expr string) bool {
+	toks, err := jmespath.VerifTokens(expr)
+	if err != nil {
+		return false
+	}
+	for _, t := range toks {
+		switch t.TypeName {
+		case "tLT", "tLTE", "tGT", "tGTE", "tEQ", "tNE":
+			return true
+		}
+	}
+	return false
 }
 
 func describeGo(doc interface{}) string {
